@@ -137,7 +137,9 @@ static void history(vf::Ctx& c, ZSTD_CCtx* cctx, unsigned* nframes, const gen::P
         int lvl = ps.get(ZSTD_c_compressionLevel, 3), strat = ps.get(ZSTD_c_strategy, 0);
         std::vector<uint8_t> y = gen::gen_content(t, (lvl >= 16 || strat >= 7) ? (64u << 10) : (600u << 10));
         std::vector<uint8_t> o(ZSTD_compressBound(y.size()) + 64);
-        switch (t.weighted({3, 2, 1, 1, 1, 3})) {
+        bool sameFamily = Tps && ps.v.size() >= Tps->v.size() && Tps->has(ZSTD_c_nbWorkers);
+        // a history entry that shares a multithreaded target's parameters is streamed (that is what runs the MT machinery for any size)
+        switch (sameFamily && t.chance(70) ? 5 : t.weighted({3, 2, 1, 1, 1, 3})) {
             case 5: {  // a complete streamed frame of unknown size (this is what takes the MT path for any size)
                 ZSTD_inBuffer in = {y.data(), y.size(), 0}; ZSTD_outBuffer ob = {o.data(), o.size(), 0};
                 size_t r = ZSTD_compressStream2(cctx, &ob, &in, ZSTD_e_continue);
